@@ -70,6 +70,15 @@ theorem probe_noExit (x : St) (k : Ctx) (h : noExit k.log) : noExit (probe x k).
     simp only [probe]
     exact noExit_append h (by intro y hy; simp at hy; subst hy; simp)
 
+theorem noSuper_eq_false {c : Chart} (hf : ∀ s, c.fall s = false) (x : St) : noSuper c x = false := by
+  cases x with
+  | nil => rfl
+  | cons a p => exact hf _
+
+theorem probeAny_eq_probe {c : Chart} (hf : ∀ s, c.fall s = false) (x : St) (k : Ctx) :
+    probeAny c x k = probe x k := by
+  simp [probeAny, noSuper_eq_false hf]
+
 /-- the exit step used by `exitWalk` and `gLoop`: `t(exit)`; if HANDLED, `t(super)` -/
 def exitStep (c : Chart) (t : St) (k : Ctx) : Ctx :=
   if (callExit c t k).1 then probe t (callExit c t k).2 else (callExit c t k).2
@@ -77,12 +86,12 @@ def exitStep (c : Chart) (t : St) (k : Ctx) : Ctx :=
 theorem exitStep_actions (c : Chart) (a : Nat) (p : St) (k : Ctx) :
     actions (exitStep c (a :: p) k).log = actions k.log ++ [⟨a :: p, .exit⟩] := by
   unfold exitStep callExit
-  by_cases h : c.exitH (a :: p) <;> simp [h, probe]
+  by_cases h : c.exitH (a :: p) <;> by_cases h' : c.fall (a :: p) <;> simp [h, h', probe]
 
 theorem callExit_actions (c : Chart) (a : Nat) (p : St) (k : Ctx) :
     actions (callExit c (a :: p) k).2.log = actions k.log ++ [⟨a :: p, .exit⟩] := by
   unfold callExit
-  by_cases h : c.exitH (a :: p) <;> simp [h]
+  by_cases h : c.exitH (a :: p) <;> by_cases h' : c.fall (a :: p) <;> simp [h, h']
 
 theorem callEntry_ne_nil {x : St} (h : x ≠ []) (k : Ctx) :
     callEntry x k = { k with log := k.log ++ [⟨x, .entry⟩] } := by
